@@ -14,7 +14,7 @@ RECURSIVE PickN(_, _, _)
 PickN(S, n, k) == IF n = 0 \/ S = {} THEN <<>>
                   ELSE LET x == Pick(S, R(k)) IN <<x>> \o PickN(S \ {x}, n - 1, k + 1)
 Blank == [kind |-> "", name |-> "", srcs |-> <<>>, libs |-> <<>>, ins |-> <<>>, nouts |-> 1,
-          always |-> FALSE, deps |-> <<>>, dist |-> TRUE, pch |-> FALSE, xdeps |-> <<>>, hdr |-> FALSE]
+          always |-> FALSE, deps |-> <<>>, dist |-> TRUE, pch |-> FALSE, xdeps |-> <<>>, hdr |-> FALSE, mode |-> "copy"]
 MkSrcs(P, k) ==
   LET fs == PickN({"s1", "s2", "s3"}, 1 + Below(R(k), 2), k + 1)
       gens == Kinds(P, {"step"})
@@ -47,7 +47,11 @@ MkDecl(P, i) ==
                      !.nouts = 1 + Below(R(5), 2), !.always = (Below(R(6), 5) = 0),
                      !.xdeps = IF Below(R(12), 4) = 0 THEN PickN(filesT \ {tins[j] : j \in 1..Len(tins)}, 1, 45) ELSE <<>>]
   ELSE IF c = 9 THEN
-       (IF {"d1", "s3"} \ copied = {} THEN exe
+       \* a copy (or symbolic link) of a built file / a copy of a source file
+       (IF filesT # {} /\ Below(R(6), 2) = 0
+          THEN [Blank EXCEPT !.kind = "copy", !.name = nm, !.ins = <<T(Pick(filesT, R(7)))>>,
+                             !.mode = (IF Below(R(8), 2) = 0 THEN "symlink" ELSE "copy")]
+        ELSE IF {"d1", "s3"} \ copied = {} THEN exe
         ELSE [Blank EXCEPT !.kind = "copy", !.name = nm, !.ins = <<F(Pick({"d1", "s3"} \ copied, R(7)))>>,
                            !.dist = (Below(R(8), 4) # 0)])
   ELSE IF c = 10 THEN (IF Targets(P) = {} THEN exe
